@@ -1,6 +1,8 @@
 package h
 
 import (
+	"crypto/sha1"
+	"encoding/hex"
 	"encoding/json"
 	"fmt"
 	"os"
@@ -69,7 +71,11 @@ func (c *Collector) ResetStates() {
 }
 
 // Nontrivial records a distinct non-trivial case.
-func (c *Collector) Nontrivial(key string) { c.nontriv[key] = struct{}{} }
+func (c *Collector) Nontrivial(key string) {
+	// keys can be long (whole traces): keep a fixed-size digest
+	sum := sha1.Sum([]byte(key))
+	c.nontriv[hex.EncodeToString(sum[:10])] = struct{}{}
+}
 
 // Outcome records a distinct observed outcome.
 func (c *Collector) Outcome(key string) { c.outcomes[key] = struct{}{} }
